@@ -7,8 +7,8 @@ From Coq Require Import ZifyBool ZifyN ZifyNat.
 Local Open Scope Z_scope.
 Ltac Zify.zify_post_hook ::= Z.to_euclidean_division_equations.
 
-(* representations the C14 statement quantifies over: 64-bit everywhere, 32-bit for seconds and coarser *)
-Definition c14_rep (P : prec) (R : ity) : Prop := R = I64 \/ (R = I32 /\ sub_second P = false).
+(* representations of the C14 theorems: int64 and int32, for every precision *)
+Definition c14_rep (P : prec) (R : ity) : Prop := R = I64 \/ R = I32.
 
 Definition tpd (P : prec) : Z :=
   match P with
@@ -42,7 +42,7 @@ Ltac open_types :=
   cbn [d_rep d_num d_den pnum pden]; eval_types; cbv beta iota;
   cbn [d_rep d_num d_den Z.eqb Pos.eqb andb]; unfold cdiv; cbn [Z.eqb].
 
-Ltac rep_cases HR := destruct HR as [->|[-> HR]]; [|try discriminate HR].
+Ltac rep_cases HR := destruct HR as [-> | ->].
 
 Lemma floor_days P R t : c14_rep P R -> fits R t = true ->
   dfloor (pty P R) (DaysT R) t = Ok (t / tpd P).
@@ -52,31 +52,31 @@ Proof.
     open_types; repeat tstep; f_equal; lia.
 Qed.
 
-Lemma time_part P R t : c14_rep P R -> fits R t = true -> tmin R <= t / tpd P * tpd P ->
-  dsub (pty P R) t (DaysT R) (t / tpd P) = Ok (t mod tpd P).
+(* the pieces of "TWide(in.time_since_epoch()) % oneDay" *)
+Lemma wide_parts P R t : c14_rep P R -> fits R t = true ->
+  mkD (common_rep R I64) (d_num (pty P R)) (d_den (pty P R)) = pty P I64 /\
+  dcast (mkD (common_rep R I64) 86400 1) (pty P I64) 1 = Ok (tpd P) /\
+  dcast (pty P R) (pty P I64) t = Ok t.
 Proof.
-  intros HR Ht Hf. apply fits_iff in Ht.
-  destruct P; rep_cases HR; unfold tmin, tmax, half in Ht, Hf; cbn [is_signed] in Ht, Hf; unfold tpd in *;
+  intros HR Ht. apply fits_iff in Ht.
+  destruct P; rep_cases HR; unfold tmin, tmax, half in Ht; cbn [is_signed] in Ht; unfold tpd;
+    (split; [reflexivity|]); (split; open_types; repeat tstep; reflexivity).
+Qed.
+
+Lemma floor_seconds P tod : 0 <= tod < tpd P ->
+  dfloor (pty P I64) SecT tod = Ok (sec_of P tod).
+Proof.
+  intros Ht.
+  destruct P; unfold tpd, sec_of in *; cbn [pnum pden];
     open_types; repeat tstep; f_equal; lia.
 Qed.
 
-Lemma common_tp P R : c14_rep P R -> dcommon (pty P R) (DaysT R) = pty P R.
-Proof. intros HR. destruct P; rep_cases HR; reflexivity. Qed.
-
-Lemma floor_seconds P R tod : c14_rep P R -> 0 <= tod < tpd P ->
-  dfloor (pty P R) SecT tod = Ok (sec_of P tod).
+Lemma frac_part P tod : sub_second P = true -> 0 <= tod < tpd P ->
+  dsub (pty P I64) tod SecT (sec_of P tod) = Ok (tod mod pden P) /\
+  dcommon (pty P I64) SecT = mkD I64 1 (pden P).
 Proof.
-  intros HR Ht.
-  destruct P; rep_cases HR; unfold tpd, sec_of in *; cbn [pnum pden];
-    open_types; repeat tstep; f_equal; lia.
-Qed.
-
-Lemma frac_part P R tod : c14_rep P R -> sub_second P = true -> 0 <= tod < tpd P ->
-  dsub (pty P R) tod SecT (sec_of P tod) = Ok (tod mod pden P) /\
-  dcommon (pty P R) SecT = mkD I64 1 (pden P).
-Proof.
-  intros HR Hs Ht.
-  destruct P; try discriminate Hs; rep_cases HR; unfold tpd, sec_of in *; cbn [pnum pden];
+  intros Hs Ht.
+  destruct P; try discriminate Hs; unfold tpd, sec_of in *; cbn [pnum pden];
     (split; [open_types; repeat tstep; f_equal; lia | reflexivity]).
 Qed.
 
@@ -93,31 +93,46 @@ Qed.
 
 (* To(time_point) -> string, evaluated: the date of the floor day, the time of day, the fraction *)
 Lemma tp_print_eval P R t : c14_rep P R -> fits R t = true ->
-  tmin R <= t / tpd P * tpd P -> t / tpd P + 719468 <= 9223372036854775807 ->
+  t / tpd P + 719468 <= 9223372036854775807 ->
   let day := t / tpd P in let tod := t mod tpd P in let sec := sec_of P tod in
   exists y m d, civil_from_days day = (y, m, d) /\ valid_date (y, m, d) /\ days_of_civil (y, m, d) = day /\
   tp_print P R t =
   print_iso_utc y m d (sec / 3600) (sec mod 3600 / 60) (sec mod 60)
     (if sub_second P then Some (I64, pden P, tod mod pden P) else None).
 Proof.
-  intros HR Ht Hf Hz. cbv zeta.
-  pose proof (floor_days P R t HR Ht) as F1. pose proof (time_part P R t HR Ht Hf) as F2.
+  intros HR Ht Hz. cbv zeta.
+  pose proof (floor_days P R t HR Ht) as F1.
+  destruct (wide_parts P R t HR Ht) as (W0 & W1 & W2).
   set (day := t / tpd P) in *. set (tod := t mod tpd P) in *. set (sec := sec_of P tod).
   destruct (civil_facts day) as (y & m & d & Ec & Hv & Hd & _).
   exists y, m, d. split; [exact Ec|]. split; [exact Hv|]. split; [exact Hd|].
-  assert (Htod : 0 <= tod < tpd P) by (unfold tod; apply Z.mod_pos_bound, tpd_pos).
+  pose proof (tpd_pos P) as Hpd.
+  assert (Htod : 0 <= tod < tpd P) by (unfold tod; apply Z.mod_pos_bound; exact Hpd).
   pose proof (sec_of_bounds P tod Htod) as Hsec. fold sec in Hsec.
+  assert (Ht64 : -9223372036854775808 <= t <= 9223372036854775807).
+  { apply fits_iff in Ht. destruct HR as [-> | ->]; unfold tmin, tmax, half in Ht; cbn [is_signed] in Ht; lia. }
   assert (Hday : -9223372036854775808 <= day <= 9223372036854775807).
-  { apply fits_iff in Ht. pose proof (tpd_pos P). unfold day.
-    assert (tmin R >= -9223372036854775808 /\ tmax R <= 9223372036854775807) by (destruct HR as [->|[-> _]]; vm_compute; split; discriminate).
-    split; [apply Z.div_le_lower_bound; nia | apply Z.div_le_upper_bound; nia]. }
+  { unfold day. split; [apply Z.div_le_lower_bound; nia | apply Z.div_le_upper_bound; nia]. }
   pose proof (year_fits day y m d Hv Hd ltac:(lia)) as Hy.
   destruct Hv as [Hm Hdd]. pose proof (dim_bounds y m) as Hdim.
   unfold tp_print. cbv zeta.
-  rewrite F1, bind_ok, F2, bind_ok.
-  rewrite (common_tp P R HR).
-  rewrite (floor_seconds P R tod HR Htod), bind_ok. fold sec.
-  replace (uac R I64) with I64 by (destruct HR as [->|[-> _]]; reflexivity).
+  rewrite F1, bind_ok. rewrite W0, W1, bind_ok, W2, bind_ok.
+  assert (Htpd64 : tpd P <= 86400000000000) by (destruct P; cbn; lia).
+  replace (tpd P =? 0) with false by lia.
+  cbn [pty d_rep promote].
+  assert (Hrem : Z.abs (Z.rem t (tpd P)) < tpd P) by (pose proof (Z.rem_bound_abs t (tpd P) ltac:(lia)); lia).
+  rewrite (arith_fits I64 (Z.rem t (tpd P))) by fits_side. rewrite bind_ok.
+  assert (Etp : (if Z.rem t (tpd P) <? 0
+                 then r <- arith I64 (Z.rem t (tpd P) + tpd P) ;; Ok (cast I64 r) else Ok (Z.rem t (tpd P))) = Ok tod).
+  { pose proof (Z.quot_rem' t (tpd P)) as Eq.
+    destruct (Z.ltb_spec (Z.rem t (tpd P)) 0) as [Hn|Hp].
+    - rewrite arith_fits by fits_side. rewrite bind_ok, cast_fits by fits_side. f_equal.
+      unfold tod. apply Z.mod_unique with (q := Z.quot t (tpd P) - 1); [left; lia | lia].
+    - f_equal. unfold tod. apply Z.mod_unique with (q := Z.quot t (tpd P)); [left; lia | lia]. }
+  rewrite Etp, bind_ok.
+  fold (pty P I64).
+  rewrite (floor_seconds P tod Htod), bind_ok. fold sec.
+  replace (uac R I64) with I64 by (destruct HR as [-> | ->]; reflexivity).
   rewrite (cast_fits I64 day) by fits_side. rewrite (cast_fits I64 719468) by fits_side.
   rewrite arith_fits by fits_side. rewrite bind_ok.
   change (civil_from_z (day + 719468)) with (civil_from_days day). rewrite Ec.
@@ -127,26 +142,22 @@ Proof.
   rewrite (cast_fits I32 (sec mod 3600 / 60)) by fits_side.
   rewrite (cast_fits I32 (sec mod 60)) by fits_side.
   destruct (sub_second P) eqn:Es; [|reflexivity].
-  destruct (frac_part P R tod HR Es Htod) as [E1 E2]. fold sec in E1.
+  destruct (frac_part P tod Es Htod) as [E1 E2]. fold sec in E1.
   rewrite E1, bind_ok, E2. reflexivity.
 Qed.
 
 (* ------------------------------------------------------------------ T_C14_print *)
 
-(* the inputs on which printing goes wrong (decidable, stated on the count only):
-   F30  first partial calendar day of the range: the start of the floor day is not representable
-   BUF  years of sixteen or more digits: the 32-byte buffer is too small
-   F31  instants of the years -999 .. -1 (printed with three digits; they still parse back) *)
-Definition rt_defect (P : prec) (R : ity) (t : Z) : bool :=
-  let day := t / tpd P in
-  (day * tpd P <? tmin R) || (365242499999280472 <=? day) || (day <? -365242500000719162).
-Definition short_year (P : prec) (t : Z) : bool :=
-  let day := t / tpd P in (-1084405 <=? day) && (day <? -719528).
-Definition print_defect (P : prec) (R : ity) (t : Z) : bool := rt_defect P R t || short_year P t.
+(* the one input class on which printing still goes wrong (K35): the last 719468 values of
+   time_point<days, int64>, where days + 719468 overflows *)
+Definition rt_defect (P : prec) (R : ity) (t : Z) : bool := 9223372036854775807 - 719468 <? t / tpd P.
+Definition print_defect (P : prec) (R : ity) (t : Z) : bool := rt_defect P R t.
 
-Lemma dby_consts : days_before_year (-999) = -1084405 /\ days_before_year 0 = -719528 /\
-  days_before_year 1000000000000000 = 365242499999280472 /\ days_before_year (-999999999999999) = -365242500000719162.
-Proof. repeat split; vm_compute; reflexivity. Qed.
+Lemma rt_defect_days P R t : c14_rep P R -> fits R t = true -> rt_defect P R t = true -> P = Pd /\ R = I64.
+Proof.
+  intros HR Ht Hd. unfold rt_defect in Hd. apply fits_iff in Ht.
+  destruct P; rep_cases HR; unfold tmin, tmax, half in Ht; cbn [is_signed] in Ht; unfold tpd in Hd; try lia; auto.
+Qed.
 
 Definition frac_cnt (P : prec) (tod : Z) : Z := if sub_second P then tod mod pden P else 0.
 
@@ -179,41 +190,25 @@ Qed.
 
 (* year width per precision: |y| < 10^k *)
 Definition year_k (P : prec) : nat :=
-  match P with Pns => 4%nat | Pus => 6%nat | Pms => 9%nat | Ps => 12%nat | Pmin => 14%nat | _ => 15%nat end.
+  match P with Pns => 4%nat | Pus => 6%nat | Pms => 9%nat | Ps => 12%nat | Pmin => 14%nat | Ph => 16%nat | Pd => 17%nat end.
 
-Lemma year_width P R t y m d : c14_rep P R -> fits R t = true -> rt_defect P R t = false ->
+Lemma year_width P R t y m d : c14_rep P R -> fits R t = true ->
   valid_date (y, m, d) -> days_of_civil (y, m, d) = t / tpd P ->
-  - p10 (year_k P) < y < p10 (year_k P) /\ t / tpd P + 719468 <= 9223372036854775807.
+  - p10 (year_k P) < y < p10 (year_k P).
 Proof.
-  intros HR Ht Hdef Hv Hd. unfold rt_defect in Hdef. cbv zeta in Hdef.
-  destruct dby_consts as (C1 & C2 & C3 & C4).
-  set (day := t / tpd P) in *.
-  assert (Hhi : y < 1000000000000000) by (apply (year_lt y m d); [exact Hv | rewrite Hd, C3; lia]).
-  assert (Hlo : -999999999999999 <= y) by (apply (year_ge y m d); [exact Hv | rewrite Hd, C4; lia]).
+  intros HR Ht Hv Hd.
   pose proof (year_linear y m d Hv) as Hlin. cbv zeta in Hlin. rewrite Hd in Hlin.
   apply fits_iff in Ht. pose proof (tpd_pos P).
+  set (day := t / tpd P) in *.
   assert (Hday : day * tpd P <= t < day * tpd P + tpd P) by (unfold day; pose proof (Z.div_mod t (tpd P) ltac:(lia)); pose proof (Z.mod_pos_bound t (tpd P) ltac:(lia)); lia).
-  split.
-  - destruct P; rep_cases HR; unfold tmin, tmax, half in Ht; cbn [is_signed] in Ht; unfold tpd in *; cbn [year_k];
-      match goal with |- - p10 ?k < _ < _ => let v := eval vm_compute in (p10 k) in change (p10 k) with v end; lia.
-  - lia.
-Qed.
-
-Lemma not_short_year P t y m d : short_year P t = false ->
-  valid_date (y, m, d) -> days_of_civil (y, m, d) = t / tpd P -> y <= -1000 \/ 0 <= y.
-Proof.
-  intros Hdef Hv Hd. unfold short_year in Hdef. cbv zeta in Hdef.
-  destruct dby_consts as (C1 & C2 & _).
-  destruct (Z.le_gt_cases y (-1000)) as [|H1]; [left; assumption|].
-  destruct (Z.le_gt_cases 0 y) as [|H2]; [right; assumption|]. exfalso.
-  pose proof (day_in_year y m d Hv) as Hin. rewrite Hd in Hin.
-  pose proof (dby_mono (-999) y ltac:(lia)). pose proof (dby_mono (y + 1) 0 ltac:(lia)). lia.
+  destruct P; rep_cases HR; unfold tmin, tmax, half in Ht; cbn [is_signed] in Ht; unfold tpd in *; cbn [year_k];
+    match goal with |- - p10 ?k < _ < _ => let v := eval vm_compute in (p10 k) in change (p10 k) with v end; lia.
 Qed.
 
 Definition frac_opt (P : prec) (tod : Z) : option (nat * Z) :=
   if sub_second P then Some (frac_digits P, tod mod pden P) else None.
 
-(* the text produced, in terms of the printed form (year as snprintf prints it) *)
+(* the text produced *)
 Lemma tp_print_text P R t : c14_rep P R -> fits R t = true -> rt_defect P R t = false ->
   let tod := t mod tpd P in let sec := sec_of P tod in
   exists y m d, civil_from_days (t / tpd P) = (y, m, d) /\ valid_date (y, m, d) /\
@@ -221,45 +216,41 @@ Lemma tp_print_text P R t : c14_rep P R -> fits R t = true -> rt_defect P R t = 
     tp_print P R t = Ok (printed_text y m d (sec / 3600) (sec mod 3600 / 60) (sec mod 60) (frac_opt P tod)).
 Proof.
   intros HR Ht Hdef. cbv zeta.
-  assert (Hf : tmin R <= t / tpd P * tpd P).
-  { unfold rt_defect in Hdef. cbv zeta in Hdef. lia. }
-  destruct (civil_facts (t / tpd P)) as (y0 & m0 & d0 & Ec0 & Hv0 & Hd0 & _).
-  destruct (year_width P R t y0 m0 d0 HR Ht Hdef Hv0 Hd0) as (Hyk & Hz).
-  destruct (tp_print_eval P R t HR Ht Hf Hz) as (y & m & d & Ec & Hv & Hd & E).
-  rewrite Ec in Ec0. injection Ec0 as <- <- <-.
+  assert (Hz : t / tpd P + 719468 <= 9223372036854775807) by (unfold rt_defect in Hdef; lia).
+  destruct (tp_print_eval P R t HR Ht Hz) as (y & m & d & Ec & Hv & Hd & E).
+  pose proof (year_width P R t y m d HR Ht Hv Hd) as Hyk.
   exists y, m, d. split; [exact Ec|]. split; [exact Hv|]. split; [exact Hd|]. split; [exact Hyk|].
   rewrite E.
   set (tod := t mod tpd P) in *. set (sec := sec_of P tod) in *.
   assert (Htod : 0 <= tod < tpd P) by (unfold tod; apply Z.mod_pos_bound, tpd_pos).
   pose proof (sec_of_bounds P tod Htod) as Hsec. fold sec in Hsec.
   destruct Hv as [Hm Hdd]. pose proof (dim_bounds y m) as Hdim.
-  assert (Hk : (4 <= year_k P <= 15)%nat) by (destruct P; cbn; lia).
-  pose proof (year_printed_length y (year_k P) Hyk ltac:(lia)) as Hlen.
+  assert (Hk : (4 <= year_k P <= 17)%nat) by (destruct P; cbn; lia).
+  assert (H17 : p10 (year_k P) <= p10 17) by (apply p10_mono; lia).
+  change (p10 17) with 100000000000000000 in H17.
+  pose proof (year_text_length y (year_k P) Hyk ltac:(lia)) as Hlen.
+  assert (Hfy : fits I64 y = true) by (apply fits_I64; lia).
   unfold frac_opt. destruct (sub_second P) eqn:Es.
   - set (w := frac_digits P).
-    assert (Hw : frac_width w /\ pden P = p10 w /\ (year_k P + 1 + 15 + 1 + w <= 31)%nat).
+    assert (Hw : frac_width w /\ pden P = p10 w /\ (year_k P + 1 + 15 + 1 + w <= 47)%nat).
     { unfold w, frac_width. destruct P; try discriminate Es; cbn; repeat split; auto; lia. }
     destruct Hw as (Hw & Hpd & Hbuf).
     assert (Hc : 0 <= tod mod pden P < p10 w) by (rewrite <- Hpd; apply Z.mod_pos_bound; destruct P; cbn; lia).
     rewrite Hpd.
     rewrite (print_iso_utc_ok y m d (sec / 3600) (sec mod 3600 / 60) (sec mod 60) (Some (w, tod mod p10 w)));
-      try lia; [reflexivity | rewrite <- Hpd; repeat split; try exact Hw; lia].
-  - assert (Hbuf : (year_k P + 1 + 15 <= 31)%nat) by (destruct P; try discriminate Es; cbn; lia).
-    rewrite (print_iso_utc_ok y m d (sec / 3600) (sec mod 3600 / 60) (sec mod 60) None); try lia. reflexivity.
+      try assumption; try lia; [reflexivity | rewrite <- Hpd; repeat split; try exact Hw; lia].
+  - assert (Hbuf : (year_k P + 1 + 15 <= 47)%nat) by (destruct P; try discriminate Es; cbn; lia).
+    rewrite (print_iso_utc_ok y m d (sec / 3600) (sec mod 3600 / 60) (sec mod 60) None); try assumption; try lia. reflexivity.
 Qed.
 
 Theorem tp_print_correct P R t : c14_rep P R -> fits R t = true -> print_defect P R t = false ->
   tp_print P R t = Ok (iso_text P (spec_datetime P t)).
 Proof.
-  intros HR Ht Hdef. unfold print_defect in Hdef. apply orb_false_iff in Hdef. destruct Hdef as [Hrt Hsy].
-  destruct (tp_print_text P R t HR Ht Hrt) as (y & m & d & Ec & Hv & Hd & Hyk & E).
+  intros HR Ht Hdef.
+  destruct (tp_print_text P R t HR Ht Hdef) as (y & m & d & Ec & Hv & Hd & Hyk & E).
   rewrite E. f_equal. unfold spec_datetime. cbv zeta. rewrite Ec.
-  pose proof (not_short_year P t y m d Hsy Hv Hd) as H31.
-  assert (Hk : (4 <= year_k P <= 15)%nat) by (destruct P; cbn; lia).
-  assert (H18 : p10 (year_k P) <= p10 18) by (apply p10_mono; lia).
-  pose proof (year_printed_spec y ltac:(lia) H31) as Hyt.
   unfold printed_text, iso_text, frac_opt, frac_text, frac_cnt. cbn [dt_y dt_mo dt_d dt_h dt_mi dt_s dt_ns].
-  rewrite Hyt. destruct (sub_second P) eqn:Es.
+  destruct (sub_second P) eqn:Es.
   - destruct (frac_digits P) as [|w'] eqn:Ew; [destruct P; discriminate|].
     replace (t mod tpd P mod pden P * tick_ns P / tick_ns P) with (t mod tpd P mod pden P)
       by (symmetry; apply Z.div_mul; destruct P; cbn; lia).
